@@ -21,7 +21,7 @@ TARGET = os.path.join(VERIF, 'target')
 GEN = os.path.join(VERIF, 'build', 'gen')
 LOGS = os.path.join(VERIF, 'logs')
 REPLAYS = os.path.join(VERIF, 'replays')
-EVID = os.path.join(VERIF, 'evidence')
+EVID = os.environ.get('VERIF_EVIDENCE_DIR') or os.path.join(VERIF, 'evidence')
 NATIVE_TOOLCHAIN = os.environ.get('PRECIS_NATIVE_TOOLCHAIN', 'stable')
 MEM_BUDGET_GB = int(os.environ.get('VERIF_MEM_GB', '54'))
 MAX_PAR = int(os.environ.get('VERIF_JOBS', '14'))
